@@ -603,16 +603,6 @@ def run_fault(be, phases, inp, steps, si, cname, occ, allowed, acc, cls=Marker):
     return None
 
 
-def _swap_functions(be, st, sites):
-    if isinstance(be, InterpBackend):
-        from dagrt.builtins_python import builtins
-        st.functions.clear()
-        st.functions.update(dict(builtins, **sites))
-    else:
-        for ir, attr in be.g.cg._name_manager.function_map._dict.items():
-            setattr(st._functions, attr.split(".")[-1], sites[ir])
-
-
 def shrink_shape(shape, sub):
     def fails(s):
         cn = call_names(s)
